@@ -87,6 +87,39 @@ def one(sid, rnd, first, point, sub):
     return s.done()
 
 
+def late(sid, api, fault):
+    """a submission for the current id after the platform itself has answered the caller (an extension crashed, the
+    invocation failed, the failure reset is shutting the environment down while the runtime - which ignores
+    SIGTERM - is still there): it is a second answer for that id and is refused; the reset completes, the caller
+    gets the platform's answer only, the next invocation is served"""
+    subs = {"e1": ["INVOKE", "SHUTDOWN"]}
+    s = Scn(sid, ext=["e1"], timeout_ms=2000, opWaitMs=8000, onTerm={"runtime": "ignore", "e1": "ignore"})
+    s.meta(family="late", submission=api, fault=fault)
+    tags = s.boot(subs)
+    s.round(tags, subs)
+    inv = s.invoke(size=3, seed=1)
+    s.wait(tags["rt"])
+    s.wait(tags["ext:e1"])
+    if fault == "ext-crash":
+        s.exit("ext:e1", code=1)
+    else:
+        s.call("ext:e1", "exterror", which="exit", errType="Extension.Fault")
+        s.exit("ext:e1", code=1)
+    s.until_ev("Terminate", n=1)
+    kw = {"errType": "Function.Late"} if api == "error" else {}
+    s.call("rt", api, id="current", body="late-answer", **kw)
+    s.wait(inv)
+    s.recover(subs)
+    return s.done()
+
+
+def late_scenarios(ctx):
+    out = []
+    for i, (api, fault) in enumerate([("response", "ext-crash"), ("error", "ext-crash"), ("response", "ext-exit-error")]):
+        out.append(late("c02-late%d" % (i + 1), api, fault))
+    return out
+
+
 def scenarios(ctx):
     rnd = random.Random(ctx.seed * 53 + 2)
     out = []
@@ -108,6 +141,7 @@ def run(ctx):
     sc.run_families(ctx, forced.scenarios('c02', ('stale-error-in-flight', 'stale-response-in-flight')), "forced-schedule")
     ctx.assumptions += sc.ASSUME
     sc.run_families(ctx, scenarios(ctx), "stale")
+    sc.run_families(ctx, late_scenarios(ctx), "late")
     ctx.coverage["exhaustive"] = not ctx.quick
 
 
